@@ -8,6 +8,8 @@ INVARIANT BrownianClosedForm
 INVARIANT OUClosedForm
 INVARIANT EulerMartingale
 INVARIANT JumpFreeReduction
+INVARIANT MeanGrowthIsMu
+INVARIANT OUVariance
 INVARIANT Emit
 PROPERTY Terminates
 CHECK_DEADLOCK FALSE
